@@ -282,12 +282,13 @@ ModeMonotoneOn(D, L) ==
   /\ LeqLive(L, Live([D EXCEPT !.seFree = {}]))
 
 \* what MUST survive: effectful parts that stay live under the IDEAL sound
-\* classifier (removable = ~effect) with tree shaking on.  A sideEffects:false
+\* classifier (removable = ~effect; the entry point's dummy part is never
+\* removable) with tree shaking on.  A sideEffects:false
 \* file that is only passed through by a re-export (none of its own
 \* declarations is bound by a live use) may vanish as a whole: the property
 \* lets annotated modules disappear.
 Ideal(G) == [G EXCEPT !.ts = TRUE,
-               !.part = [f \in G.files |-> [i \in DOMAIN G.part[f] |-> [G.part[f][i] EXCEPT !.removable = ~G.part[f][i].effect]]]]
+               !.part = [f \in G.files |-> [i \in DOMAIN G.part[f] |-> [G.part[f][i] EXCEPT !.removable = ~G.part[f][i].effect /\ ~G.part[f][i].entryExp]]]]
 BoundFiles(G, f, i) ==
   {d[1] : d \in DeclDeps(G, f, i)}
   \cup UNION {LET r == ResolveLocal(G, f, n, Fuel(G)) IN IF r.ok THEN {r.file} ELSE {} : n \in G.part[f][i].uses}
